@@ -1088,6 +1088,42 @@ def r6_13(ctx):
     ctx.floor("R6.13", n, 2, "BadCommand handlers of the callers of parse()")
 
 
+def r6_14(ctx):
+    """The front end refuses a literal or a command that is too big with a BAD.  The command it refuses has a tag - the first
+    word of what is buffered - and the client waits for a response that carries it: each such refusal is built from the
+    buffered command's tag, not sent as a constant `* BAD ...`.  (Two refusals have no tag to give: an empty line, and a
+    line longer than the stream takes, of which nothing has been read yet.)"""
+    p = ctx.p
+    fi = p.func("server.IMAPClient.start")
+    ctx.analysed(fi)
+    par = parmap(fi)
+    n = 0
+    for c in calls_in(fi.node):
+        if call_name(c) != "push" or not c.args:
+            continue
+        consts = [k.value for k in ast.walk(c.args[0]) if isinstance(k, ast.Constant) and isinstance(k.value, (bytes, str))]
+        text = b"".join(k if isinstance(k, bytes) else k.encode("latin-1") for k in consts)
+        if b"BAD" not in text:
+            continue
+        cur, in_overrun = c, False
+        while cur in par:
+            cur = par[cur]
+            if isinstance(cur, ast.ExceptHandler) and cur.type is not None and "LimitOverrunError" in norm(cur.type):
+                in_overrun = True
+        if in_overrun or b"empty message" in text:
+            ctx.ok("R6.14", where(fi), f"{norm(c, 50)}: no tag to give (nothing of the command has been read)", nontrivial=False)
+            continue
+        n += 1
+        a = c.args[0]
+        bare = isinstance(a, ast.Constant) or (isinstance(a, ast.JoinedStr) and all(isinstance(v, ast.Constant) for v in a.values))
+        starts_star = text.lstrip().startswith(b"* BAD")
+        if bare or starts_star:
+            ctx.bad("R6.14", fi.module, fi.qual, norm(c, 80), "a command is refused for its size with a constant `* BAD ...`: its tag is known (the first word of the buffered command) and the client is waiting for a response that carries it - for a synchronising literal it has sent nothing else and waits for ever", c.lineno)
+        else:
+            ctx.ok("R6.14", where(fi), f"{norm(c, 60)}: the refusal carries the buffered command's tag")
+    ctx.floor("R6.14", n, 3, "size refusals of a buffered command")
+
+
 def run(ctx):
     ctx.do(r6_1)
     ctx.do(r6_2)
@@ -1102,6 +1138,7 @@ def run(ctx):
     ctx.do(r6_11)
     ctx.do(r6_12)
     ctx.do(r6_13)
+    ctx.do(r6_14)
     from . import c07 as _c07
     ctx.do(_c07.r7_8)  # one tagged reply per command: error texts cannot carry a line break into the reply
     from . import c01
